@@ -62,7 +62,7 @@ def check_memory_near_wrap(c):
 
 def enum_memory_near_wrap(tier, shard, nshards, rng):
     i = 0
-    for w in list(range(1, 65)) + [65, 70, 72, 80, 96, 100, 128]:
+    for w in list(range(1, 65)) + [65, 70, 72, 80, 96, 100, 128, 213, 256, 512, 1024]:
         for below in (1, 2, 3):
             i += 1
             if i % nshards == shard and below <= (1 << w):
@@ -131,6 +131,10 @@ class FileState:
         if start is not None:
             self.model = start % self.mod
             self.path.write_text(f"{self.model}\n")
+        # a second counter file (another APID / channel) the live provider can be pointed at through its public file_name attribute
+        self.other_path = Path(self.dir) / "seqcnt_other.txt"
+        self.other_model = 7 % self.mod
+        self.other_path.write_text(f"{self.other_model}\n")
         self.p = self.new_provider()
         self.restarts_right_after_wrap = False
         self.last_returned = None
@@ -158,7 +162,7 @@ class FileMachine(HistorySpec):
     def ops(self):
         return {
             "next": st.just(0), "next_b": st.just(0), "get_and_increment": st.just(0), "burst": st.integers(2, 12),
-            "current": st.just(0), "reinstantiate": st.just(0), "inspect_file": st.just(0),
+            "current": st.just(0), "reinstantiate": st.just(0), "inspect_file": st.just(0), "repoint": st.just(0),
         }
 
     def start(self, params):
@@ -190,6 +194,13 @@ class FileMachine(HistorySpec):
         elif name == "current":
             eq(devs, "file.current", s.p.current(), s.model, "current() must read the next value without advancing")
             eq(devs, "file.current_again", s.p.current(), s.model, "current() advanced the counter")
+        elif name == "repoint":
+            # the live provider is pointed at the other counter file: it continues that file's sequence, the first file keeps its count
+            s.path, s.other_path = s.other_path, s.path
+            s.model, s.other_model = s.other_model, s.model
+            s.p.file_name = s.path
+            line = s.other_path.read_text().split("\n")[0]
+            eq(devs, "file.repoint.left_file_keeps_its_count", line, str(s.other_model))
         elif name == "reinstantiate":
             s.p = s.new_provider()  # the restart point: a fresh object on the same file
         return devs
@@ -216,10 +227,17 @@ def _file_classes(trace):
     p = trace["init"]
     mod = 1 << p["width"]
     n = (p["start"] or 0) % mod
+    other = 7 % mod
     out = set()
     calls = 0
     just_wrapped = False
     for name, a in trace["steps"]:
+        if name == "repoint":
+            n, other = other, n
+            just_wrapped = False
+            if calls:
+                out.add("repointed after use")
+            continue
         k = {"next": 1, "next_b": 1, "get_and_increment": 1, "burst": a}.get(name, 0)
         if k:
             for _ in range(k):
@@ -282,7 +300,7 @@ def enum_file_long(tier, shard, nshards, rng):
         cases.append({"width": w, "start": (1 << w) - 3, "calls": 16, "restarts": [2, 3, 4, 9]})
     # wide counters (transaction / frame counters of 24..64 bit): the wrap is reached by starting just below it; beyond 2^53 integers
     # are no longer exactly representable in floating point
-    for w in (17, 24, 31, 32, 33, 48, 52, 53, 54, 55, 56, 60, 63, 64, 65, 69, 70, 72, 80, 96, 100, 128):  # "all widths": decimal counts of 20 .. 39 digits
+    for w in (17, 24, 31, 32, 33, 48, 52, 53, 54, 55, 56, 60, 63, 64, 65, 69, 70, 72, 80, 96, 100, 128, 200, 213, 256, 512, 1024):  # "all widths": decimal counts of 20 .. 309 digits
         cases.append({"width": w, "start": (1 << w) - 3, "calls": 9, "restarts": [1, 3, 4]})
     if tier == "thorough":
         calls = (1 << 14) + 3
@@ -308,7 +326,7 @@ def st_bad():
         return st.fixed_dictionaries({"k": st.just("content"), "width": st.just(w), "bad": bad_text, "calls_before": st.integers(0, 3)})
 
     missing = st.fixed_dictionaries({"k": st.just("missing"), "width": st.sampled_from([1, 3, 14]), "calls_before": st.integers(0, 3)})
-    return st.one_of(st.sampled_from([1, 2, 3, 8, 14]).flatmap(for_width), st.sampled_from([1, 2, 3, 8, 14, 16, 32, 53, 54, 56, 63, 64, 70, 72, 100, 128]).flatmap(for_width), missing)
+    return st.one_of(st.sampled_from([1, 2, 3, 8, 14]).flatmap(for_width), st.sampled_from([1, 2, 3, 8, 14, 16, 32, 53, 54, 56, 63, 64, 70, 72, 100, 128, 256, 1024]).flatmap(for_width), missing)
 
 
 def check_bad(c):
@@ -393,7 +411,7 @@ CLAUSES = [
         history=FileMachine(),
         nontrivial=_file_nt,
         classify=_file_classes,
-        required=["wraps", "restart", "restart before first use", "restart right after wrap", "fresh file", "pre-seeded file", "width 14"],
+        required=["wraps", "restart", "restart before first use", "restart right after wrap", "fresh file", "pre-seeded file", "width 14", "repointed after use"],
         n={"quick": 300, "thorough": 2500},
     ),
     Clause(
